@@ -114,7 +114,9 @@ static void string_case(const std::string &s){ vf::eval(); vf::announce("string 
 	vf::outcome(std::string(rv?"v":"i")+std::to_string(rc)+":"+std::to_string(items.size())+":"+vf::hex(s.substr(0,6))); }
 static void strings_shard(int sh,int n){ bool th=vf::thorough(); std::vector<std::string> full=catalogue(false),small=catalogue(true); uint64_t idx=0;
 	std::function<void(const std::vector<std::string>&,std::string&,int,int)> rec=[&](const std::vector<std::string> &cat,std::string &cur,int d,int maxd){ if(d==maxd){ if((idx++%n)==(uint64_t)sh) string_case(cur); return; } for(size_t i=0;i<cat.size();i++){ size_t l=cur.size(); cur+=cat[i]; rec(cat,cur,d+1,maxd); cur.resize(l);} };
-	std::string cur; for(int d=0;d<=3;d++) rec(full,cur,0,d); if(th) rec(full,cur,0,4); else rec(small,cur,0,4); vf::guard("catalogue_strings",idx/n); }
+	std::string cur; for(int d=0;d<=3;d++) rec(full,cur,0,d); if(th) rec(full,cur,0,4); else rec(small,cur,0,4); vf::guard("catalogue_strings",idx/n);
+	// every byte string of length 1 and 2 (all 256 / 65536) through the whole-string validators, counters and filters too (the decoders have their own exhaustive sweep)
+	{ uint64_t j=0; for(int a=0;a<256;a++){ if((j++%n)==(uint64_t)sh) string_case(std::string(1,(char)a)); for(int b=0;b<256;b++){ if((j++%n)!=(uint64_t)sh) continue; std::string t; t+=(char)a; t+=(char)b; string_case(t); } } vf::guard("all_one_and_two_byte_strings",j/n); } }
 
 
 // ---- form layer: widgets::text rejects invalid text and counts code points for its length limits -----------------------
@@ -129,7 +131,7 @@ static void form_shard(int sh,int n){ const char *locs[]={"en_US.UTF-8","en_US.I
 int main(int argc,char **argv){ vf::init(argc,argv,"C14","exploration"); int n=16;
 	if(!vf::C().replay_file.empty()){ std::ifstream f(vf::C().replay_file); std::stringstream ss; ss<<f.rdbuf(); std::string in=vf::unhex(vf::jfield(ss.str(),"input_hex")); window((const unsigned char*)in.data(),std::min<size_t>(in.size(),4)); string_case(in); printf("replayed %s\n",vf::hex(in).c_str()); return vf::finish(); }
 	if(vf::C().pass=="sweep"){ vf::parallel(n,n,[&](int sh){ sweep_shard(sh,n); },1500); return vf::finish(); }
-	vf::C().rule=std::string("UTF-8: every byte window of length 4 (")+"all 2^32"+") and every string of length 1..3 through cppcms::utf8::next (plain and HTML-safe) and booster utf_traits<char>::decode vs a grammar-derived RFC 3629 decoder (value, length, verdict); single-byte: all 256 bytes and all 65536 pairs for 36 code-page names; whole strings: every concatenation of <=3 (and 4: "+(vf::thorough()?"full":"20-piece sub-catalogue")+") pieces of a 38-piece catalogue through valid/valid_utf8/validate_or_filter with and without replacement; form layer: widgets::text with limits {(0,inf),(1,3),(2,2),(0,0)} in a UTF-8 and an ISO-8859-1 context loaded with every concatenation of <= 2 (thorough 3) catalogue pieces. distinct = (lead-byte class, reference length), (code page, byte, verdict), (string verdict, code points, unit structure); non-trivial: all";
+	vf::C().rule=std::string("UTF-8: every byte window of length 4 (")+"all 2^32"+") and every string of length 1..3 through cppcms::utf8::next (plain and HTML-safe) and booster utf_traits<char>::decode vs a grammar-derived RFC 3629 decoder (value, length, verdict); single-byte: all 256 bytes and all 65536 pairs for 36 code-page names; whole strings: every byte string of length 1 and 2, and every concatenation of <=3 (and 4: "+(vf::thorough()?"full":"20-piece sub-catalogue")+") pieces of a 38-piece catalogue through valid/valid_utf8/validate_or_filter with and without replacement; form layer: widgets::text with limits {(0,inf),(1,3),(2,2),(0,0)} in a UTF-8 and an ISO-8859-1 context loaded with every concatenation of <= 2 (thorough 3) catalogue pieces. distinct = (lead-byte class, reference length), (code page, byte, verdict), (string verdict, code points, unit structure); non-trivial: all";
 	vf::assume("C0/C1 controls are read as Unicode Cc incl. U+007F (the statement names DEL for the single-byte family; the code rejects it in HTML-safe UTF-8 as well)");
 	vf::assume("filtering: resynchronisation is byte-wise after an ill-formed lead; between 1 and n replacement characters per run of n invalid bytes are accepted");
 	vf::run_sub("rel","sweep");
